@@ -493,3 +493,96 @@ pub enum ResponseSender {
     Mutable(Sender<MutableItem>),
     Immutable(Sender<Box<[u8]>>),
 }
+
+/// Verification hook: sizes of the per-call state of an [Actor] and its statistics.
+#[cfg(mainline_verif)]
+#[derive(Debug, Clone)]
+pub struct VerifSnapshot {
+    /// active lookups
+    pub iterative_queries: usize,
+    /// active puts
+    pub put_queries: usize,
+    /// parked put callers (targets, callers)
+    pub put_senders: (usize, usize),
+    /// parked get callers (targets, callers)
+    pub get_senders: (usize, usize),
+    /// in-flight vector: (entries, unexpired, next tid, timeout in us)
+    pub inflight: (usize, usize, u32, u128),
+    /// cached finished lookups: (target, is find_node, dht size estimate, responders estimate, subnets)
+    pub cache: Vec<(Id, bool, f64, f64, u8)>,
+    /// statistics of the main routing table
+    pub stats: (usize, f64, usize, f64, usize),
+    /// statistics of the signed peers routing table
+    pub signed_stats: (usize, f64, usize, f64, usize),
+    /// nodes of the main routing table
+    pub table: Vec<Node>,
+    /// nodes of the signed peers routing table
+    pub signed_table: Vec<Node>,
+    /// public address, firewalled, server mode
+    pub mode: (Option<SocketAddrV4>, bool, bool),
+}
+
+#[cfg(mainline_verif)]
+impl Actor {
+    /// Verification hook: snapshot of bookkeeping sizes and statistics.
+    pub fn verif_snapshot(&self) -> VerifSnapshot {
+        VerifSnapshot {
+            iterative_queries: self.core.iterative_queries.len(),
+            put_queries: self.core.put_queries.len(),
+            put_senders: (
+                self.put_senders.len(),
+                self.put_senders.values().map(|v| v.len()).sum(),
+            ),
+            get_senders: (
+                self.get_senders.len(),
+                self.get_senders.values().map(|v| v.len()).sum(),
+            ),
+            inflight: self.socket.verif_inflight(),
+            cache: self.core.verif_cache(),
+            stats: self.core.routing_table.verif_stats(),
+            signed_stats: self.core.signed_peers_routing_table.verif_stats(),
+            table: self.core.routing_table.to_owned_nodes(),
+            signed_table: self.core.signed_peers_routing_table.to_owned_nodes(),
+            mode: (
+                self.core.public_address,
+                self.core.firewalled,
+                self.core.server_mode,
+            ),
+        }
+    }
+
+    /// Verification hook: the embedded server's stores.
+    pub fn verif_server_dump(&self) -> crate::core::server::VerifServerDump {
+        self.core.server.verif_dump()
+    }
+
+    /// Verification hook: what `run` does for `ActorMessage::Put`.
+    pub fn verif_put(
+        &mut self,
+        request: PutRequestSpecific,
+        sender: Sender<Result<Id, PutError>>,
+        extra_nodes: Option<Box<[Node]>>,
+    ) {
+        let target = *request.target();
+        match self.put(request, extra_nodes) {
+            Ok(()) => {
+                let senders = self.put_senders.entry(target).or_insert(vec![]);
+                senders.push(sender);
+            }
+            Err(error) => {
+                let _ = sender.send(Err(error));
+            }
+        };
+    }
+
+    /// Verification hook: what `run` does for `ActorMessage::Get`.
+    pub fn verif_get(&mut self, request: GetRequestSpecific, sender: ResponseSender) {
+        let target = request.target();
+        let responses = self.get(request, None);
+        for response in responses {
+            send(&sender, response);
+        }
+        let senders = self.get_senders.entry(target).or_insert(vec![]);
+        senders.push(sender);
+    }
+}
